@@ -30,7 +30,7 @@ ASSUMPTIONS = [
     "Value equality is checked on the LINQ subset with python sequences; CPython is the evaluator.",
 ]
 BUDGET = {"quick": (4, 1200), "thorough": (16, 10000)}
-EXHAUSTIVE_NOTE = "12 operator names + 6 look-alikes x 6 syntactic positions x method/function form, fully enumerated"
+EXHAUSTIVE_NOTE = "12 operator names + 6 look-alikes x 10 syntactic positions (incl. keyword-argument values, dict values, tuple/list elements) x method/function form, fully enumerated"
 
 
 class SeqX(pyeval.Seq):
@@ -88,6 +88,7 @@ def _env(data):
         Max=lambda s: max(s),
         Min=lambda s: min(s),
         keep=lambda f, v: v,
+        kw=lambda v, w=0: v,
     )
     return env
 
@@ -126,6 +127,8 @@ def _expr(draw, ty, depth, ivars, svars):
         if k == 7:
             la = draw(st.sampled_from(["Select2", "select"]))
             return f"({draw(_expr('S', d, ivars, svars))}).{la}(lambda {v}: {draw(_expr('I', d, ivars + [v], svars))})"
+        if k == 8 and draw(st.booleans()):
+            return f"kw(w={draw(_expr('I', d, ivars, svars))}, v={draw(_expr('S', d, ivars, svars))})"
         la = draw(st.sampled_from(["Zip()", f"Wheres(lambda {v}: {v} > 1)"]))
         return f"({draw(_expr('S', d, ivars, svars))}).{la}"
     if ty == "B":
@@ -140,7 +143,15 @@ def _expr(draw, ty, depth, ivars, svars):
         if k == 2:
             return _call(draw, "ResultPandasDF", s, ["['c']"])
         return f"({s}).ResultParquet(['c'], 'f.pq')"
-    k = draw(st.integers(0, 1)) if leaf else draw(st.integers(1, 10))
+    k = draw(st.integers(0, 1)) if leaf else draw(st.integers(1, 14))
+    if k == 11:
+        return f"kw(v={draw(_expr('I', d, ivars, svars))}, w={draw(_expr('I', d, ivars, svars))})"
+    if k == 12:
+        return f"({draw(_expr('I', d, ivars, svars))}, {draw(_expr('I', d, ivars, svars))})[{draw(st.integers(0, 1))}]"
+    if k == 13:
+        return f"{{'a': {draw(_expr('I', d, ivars, svars))}, 'b': {draw(_expr('I', d, ivars, svars))}}}['{draw(st.sampled_from('ab'))}']"
+    if k == 14:
+        return f"[{draw(_expr('I', d, ivars, svars))}, *{draw(_expr('S', d, ivars, svars))}][0]"
     if k == 0:
         return str(draw(st.integers(-4, 9)))
     if k == 1:
@@ -201,6 +212,10 @@ def exhaustive(tier):
         "(s0).Where(lambda q: keep({X}, q > 1)).Count()",
         "Count(Select(s1, lambda q: {X}))",
         "keep((s0).Select, {X})",
+        "kw(w=1, v={X})",
+        "{'a': {X}}['a']",
+        "(1, {X})[1]",
+        "[*s1, {X}][0]",
     ]
     for name, pos, form in itertools.product(OPS + LOOKALIKE, positions, ["m", "f"]):
         a = _ARGS[name]
